@@ -12,20 +12,169 @@ import (
 )
 
 // ---------------------------------------------------------------------------
-// Reaching conditions as exact boolean functions (truth-table bitsets).
+// Reaching conditions as exact boolean functions (canonical decision diagrams).
 //
 // For a function, every distinct atomic condition tested by an `If` becomes a
 // boolean variable; the reaching condition of a block is the disjunction over its
 // forward (back-edge-free) predecessors of (reach(pred) ∧ edge condition). The
-// functions are represented extensionally (one bit per assignment), so && / ||
+// functions are represented canonically (reduced ordered BDDs), so && / ||
 // chains, switches, early returns and negated forms are all handled uniformly and
-// entailment is decided by comparing bitsets. Rules name the atoms they care
+// entailment is decided exactly. Rules name the atoms they care
 // about through a recogniser; everything else is a free variable.
 // ---------------------------------------------------------------------------
 
-type Bits []uint64
+// Bits is a boolean function over the variables of a CondSpace, represented as a node of a reduced ordered binary
+// decision diagram kept in one process-wide table (variable i of every space is BDD variable i; canonical, so
+// equality of functions is equality of node numbers). 0 is false, 1 is true.
+type Bits int32
 
-const maxCondVars = 22
+// maxCondVars bounds the number of distinct conditions of one function; maxBDDNodes bounds the table. Exceeding
+// either makes the space unusable (cs.err) and every entailment query on it fails closed.
+const maxCondVars = 96
+const maxBDDNodes = 8 << 20
+
+type bddNode struct {
+	v      int32
+	lo, hi Bits
+}
+
+var bdd = struct {
+	nodes  []bddNode
+	uniq   map[bddNode]Bits
+	andM   map[[2]Bits]Bits
+	notM   map[Bits]Bits
+	exM    map[[2]int32]Bits
+	blown  bool
+	errors []string // spaces that could not be built in this run (reported fail-closed by runOne)
+}{
+	nodes: []bddNode{{v: 1 << 30}, {v: 1 << 30}},
+	uniq:  map[bddNode]Bits{}, andM: map[[2]Bits]Bits{}, notM: map[Bits]Bits{}, exM: map[[2]int32]Bits{},
+}
+
+func bddMk(v int32, lo, hi Bits) Bits {
+	if lo == hi {
+		return lo
+	}
+	k := bddNode{v, lo, hi}
+	if n, ok := bdd.uniq[k]; ok {
+		return n
+	}
+	if len(bdd.nodes) >= maxBDDNodes {
+		bdd.blown = true
+		return 0
+	}
+	n := Bits(len(bdd.nodes))
+	bdd.nodes = append(bdd.nodes, k)
+	bdd.uniq[k] = n
+	return n
+}
+
+func bddVar(i int) Bits { return bddMk(int32(i), 0, 1) }
+
+func and(a, b Bits) Bits {
+	switch {
+	case a == 0 || b == 0:
+		return 0
+	case a == 1:
+		return b
+	case b == 1 || a == b:
+		return a
+	}
+	if a > b {
+		a, b = b, a
+	}
+	k := [2]Bits{a, b}
+	if r, ok := bdd.andM[k]; ok {
+		return r
+	}
+	na, nb := bdd.nodes[a], bdd.nodes[b]
+	var r Bits
+	switch {
+	case na.v == nb.v:
+		r = bddMk(na.v, and(na.lo, nb.lo), and(na.hi, nb.hi))
+	case na.v < nb.v:
+		r = bddMk(na.v, and(na.lo, b), and(na.hi, b))
+	default:
+		r = bddMk(nb.v, and(a, nb.lo), and(a, nb.hi))
+	}
+	bdd.andM[k] = r
+	return r
+}
+
+func bddNot(a Bits) Bits {
+	if a < 2 {
+		return 1 - a
+	}
+	if r, ok := bdd.notM[a]; ok {
+		return r
+	}
+	n := bdd.nodes[a]
+	r := bddMk(n.v, bddNot(n.lo), bddNot(n.hi))
+	bdd.notM[a] = r
+	return r
+}
+
+func or(a, b Bits) Bits { return bddNot(and(bddNot(a), bddNot(b))) }
+
+func bddExists(a Bits, i int32) Bits {
+	if a < 2 {
+		return a
+	}
+	n := bdd.nodes[a]
+	if n.v > i {
+		return a
+	}
+	k := [2]int32{int32(a), i}
+	if r, ok := bdd.exM[k]; ok {
+		return r
+	}
+	var r Bits
+	if n.v == i {
+		r = or(n.lo, n.hi)
+	} else {
+		r = bddMk(n.v, bddExists(n.lo, i), bddExists(n.hi, i))
+	}
+	bdd.exM[k] = r
+	return r
+}
+
+func bddEval(a Bits, val func(v int32) bool) bool {
+	for a >= 2 {
+		n := bdd.nodes[a]
+		if val(n.v) {
+			a = n.hi
+		} else {
+			a = n.lo
+		}
+	}
+	return a == 1
+}
+
+func bddSupport(a Bits) []int {
+	seen := map[Bits]bool{}
+	vars := map[int]bool{}
+	var walk func(a Bits)
+	walk = func(a Bits) {
+		if a < 2 || seen[a] {
+			return
+		}
+		seen[a] = true
+		n := bdd.nodes[a]
+		vars[int(n.v)] = true
+		walk(n.lo)
+		walk(n.hi)
+	}
+	walk(a)
+	var out []int
+	for v := range vars {
+		out = append(out, v)
+	}
+	sort.Ints(out)
+	return out
+}
+
+func isZero(a Bits) bool       { return a == 0 }
+func equalBits(a, b Bits) bool { return a == b }
 
 // AtomRecogniser maps an atomic boolean SSA value to a rule-level atom name.
 // neg=true means the value is the negation of the named atom. name=="" : not recognised.
@@ -37,7 +186,6 @@ type CondSpace struct {
 	VarVal   []ssa.Value    // a representative SSA leaf per variable (nil for pre-registered atoms never seen)
 	LoopVar  []bool         // variable is tested by a loop header
 	idx      map[string]int // key -> index
-	words    int            // len(Bits)
 	In       map[*ssa.BasicBlock]Bits
 	Univ     Bits // mutual-exclusion constraints between atoms
 	rec      AtomRecogniser
@@ -47,90 +195,12 @@ type CondSpace struct {
 	backTo   map[*ssa.BasicBlock]bool // loop headers
 }
 
-func (cs *CondSpace) newBits(fill bool) Bits {
-	b := make(Bits, cs.words)
-	if fill {
-		for i := range b {
-			b[i] = ^uint64(0)
-		}
-		cs.trim(b)
-	}
-	return b
-}
+func (cs *CondSpace) True() Bits  { return 1 }
+func (cs *CondSpace) False() Bits { return 0 }
 
-func (cs *CondSpace) trim(b Bits) {
-	n := len(cs.Vars)
-	if n < 6 {
-		b[0] &= (uint64(1) << (uint(1) << uint(n))) - 1
-	}
-}
+func (cs *CondSpace) varBits(i int) Bits { return bddVar(i) }
 
-func (cs *CondSpace) True() Bits  { return cs.newBits(true) }
-func (cs *CondSpace) False() Bits { return cs.newBits(false) }
-
-func (cs *CondSpace) varBits(i int) Bits {
-	b := cs.newBits(false)
-	if i < 6 {
-		// pattern within a word
-		var pat uint64
-		for bit := uint(0); bit < 64; bit++ {
-			if (bit>>uint(i))&1 == 1 {
-				pat |= 1 << bit
-			}
-		}
-		for w := range b {
-			b[w] = pat
-		}
-	} else {
-		stride := 1 << uint(i-6)
-		for w := range b {
-			if (w/stride)&1 == 1 {
-				b[w] = ^uint64(0)
-			}
-		}
-	}
-	cs.trim(b)
-	return b
-}
-
-func and(a, b Bits) Bits {
-	r := make(Bits, len(a))
-	for i := range a {
-		r[i] = a[i] & b[i]
-	}
-	return r
-}
-func or(a, b Bits) Bits {
-	r := make(Bits, len(a))
-	for i := range a {
-		r[i] = a[i] | b[i]
-	}
-	return r
-}
-func (cs *CondSpace) not(a Bits) Bits {
-	r := make(Bits, len(a))
-	for i := range a {
-		r[i] = ^a[i]
-	}
-	cs.trim(r)
-	return r
-}
-func isZero(a Bits) bool {
-	for _, w := range a {
-		if w != 0 {
-			return false
-		}
-	}
-	return true
-}
-func equalBits(a, b Bits) bool {
-	for i := range a {
-		if a[i] != b[i] {
-			return false
-		}
-	}
-	return true
-}
+func (cs *CondSpace) not(a Bits) Bits { return bddNot(a) }
 
 // And/Or/Not over rule formulas.
 func (cs *CondSpace) And(xs ...Bits) Bits {
@@ -166,9 +236,25 @@ func (cs *CondSpace) Seen(name string) bool {
 	return ok && cs.VarVal[i] != nil
 }
 
+// unusable: the space could not be built (too many conditions) or the node table overflowed; no entailment is
+// ever reported on such a space.
+func (cs *CondSpace) unusable() bool {
+	if cs.err == "" && bdd.blown {
+		cs.err = fmt.Sprintf("function %s: decision-diagram table exhausted (%d nodes)", fname(cs.Fn), maxBDDNodes)
+		bdd.errors = append(bdd.errors, cs.err)
+	}
+	return cs.err != ""
+}
+
 // Implies decides a ⇒ b within the universe; on failure returns a falsifying assignment.
 func (cs *CondSpace) Implies(a, b Bits) (bool, string) {
+	if cs.unusable() {
+		return false, cs.err
+	}
 	bad := and(and(a, cs.not(b)), cs.Univ)
+	if cs.unusable() {
+		return false, cs.err
+	}
 	if isZero(bad) {
 		return true, ""
 	}
@@ -199,54 +285,45 @@ func (cs *CondSpace) EquivStrict(reach, want Bits) (bool, string) {
 	return true, ""
 }
 
-func (cs *CondSpace) Satisfiable(a Bits) bool { return !isZero(and(a, cs.Univ)) }
+// Satisfiable: some assignment within the universe satisfies a. On an unusable space everything is reported
+// satisfiable (rules use unsatisfiability as the proof step: "this path cannot happen").
+func (cs *CondSpace) Satisfiable(a Bits) bool {
+	if cs.unusable() {
+		return true
+	}
+	r := and(a, cs.Univ)
+	if cs.unusable() {
+		return true
+	}
+	return !isZero(r)
+}
 
+// assignment: one satisfying assignment of bad (variables the function does not depend on are shown as false).
 func (cs *CondSpace) assignment(bad Bits) string {
-	for w, word := range bad {
-		if word == 0 {
-			continue
-		}
-		for bit := 0; bit < 64; bit++ {
-			if word&(1<<uint(bit)) != 0 {
-				idx := w*64 + bit
-				var parts []string
-				for i, v := range cs.Vars {
-					val := (idx>>uint(i))&1 == 1
-					parts = append(parts, fmt.Sprintf("%s=%v", strings.TrimPrefix(v, "@"), val))
-				}
-				return strings.Join(parts, " ")
-			}
+	val := map[int32]bool{}
+	for a := bad; a >= 2; {
+		n := bdd.nodes[a]
+		if n.hi != 0 {
+			val[n.v] = true
+			a = n.hi
+		} else {
+			a = n.lo
 		}
 	}
-	return ""
+	var parts []string
+	for i, v := range cs.Vars {
+		parts = append(parts, fmt.Sprintf("%s=%v", strings.TrimPrefix(v, "@"), val[int32(i)]))
+	}
+	return strings.Join(parts, " ")
 }
 
 // Exists quantifies variable i away (smoothing).
-func (cs *CondSpace) exists(a Bits, i int) Bits {
-	v := cs.varBits(i)
-	// cofactors
-	pos := and(a, v)
-	neg := and(a, cs.not(v))
-	// shift pos down / neg up to cover both halves
-	r := cs.newBits(false)
-	total := 1 << uint(len(cs.Vars))
-	for idx := 0; idx < total; idx++ {
-		j := idx ^ (1 << uint(i))
-		if getBit(pos, idx) || getBit(neg, idx) || getBit(pos, j) || getBit(neg, j) {
-			setBit(r, idx)
-		}
-	}
-	return r
-}
+func (cs *CondSpace) exists(a Bits, i int) Bits { return bddExists(a, int32(i)) }
 
-func getBit(b Bits, i int) bool { return b[i>>6]&(1<<uint(i&63)) != 0 }
-func setBit(b Bits, i int)      { b[i>>6] |= 1 << uint(i&63) }
-
-// ForgetLoopVars existentially quantifies all loop-header conditions and all
-// variables not named by the rule (free variables), keeping only named atoms.
+// OnlyNamed existentially quantifies all variables not named by the rule (free variables), keeping only named atoms.
 func (cs *CondSpace) OnlyNamed(a Bits) Bits {
-	for i, k := range cs.Vars {
-		if !strings.HasPrefix(k, "@") {
+	for i := len(cs.Vars) - 1; i >= 0; i-- {
+		if !strings.HasPrefix(cs.Vars[i], "@") {
 			a = cs.exists(a, i)
 		}
 	}
@@ -254,7 +331,7 @@ func (cs *CondSpace) OnlyNamed(a Bits) Bits {
 }
 
 func (cs *CondSpace) ForgetLoopVars(a Bits) Bits {
-	for i := range cs.Vars {
+	for i := len(cs.Vars) - 1; i >= 0; i-- {
 		if cs.LoopVar[i] && !strings.HasPrefix(cs.Vars[i], "@") {
 			a = cs.exists(a, i)
 		}
@@ -264,16 +341,10 @@ func (cs *CondSpace) ForgetLoopVars(a Bits) Bits {
 
 // Describe renders a boolean function as a DNF over the variables it depends on (for reports).
 func (cs *CondSpace) Describe(a Bits) string {
-	// find support
-	var support []int
-	for i := range cs.Vars {
-		v := cs.varBits(i)
-		pos := cs.exists(and(a, v), i)
-		neg := cs.exists(and(a, cs.not(v)), i)
-		if !equalBits(pos, neg) {
-			support = append(support, i)
-		}
+	if cs.err != "" {
+		return "<" + cs.err + ">"
 	}
+	support := bddSupport(a)
 	if isZero(a) {
 		return "false"
 	}
@@ -284,27 +355,25 @@ func (cs *CondSpace) Describe(a Bits) string {
 		return fmt.Sprintf("<function of %d conditions>", len(support))
 	}
 	// enumerate minterms over the support
-	seen := map[string]bool{}
 	var terms []string
-	total := 1 << uint(len(cs.Vars))
-	for idx := 0; idx < total; idx++ {
-		if !getBit(a, idx) {
+	for m := 0; m < 1<<uint(len(support)); m++ {
+		pos := map[int32]bool{}
+		for k, i := range support {
+			pos[int32(i)] = (m>>uint(k))&1 == 1
+		}
+		if !bddEval(a, func(v int32) bool { return pos[v] }) {
 			continue
 		}
 		var lits []string
 		for _, i := range support {
 			name := strings.TrimPrefix(cs.Vars[i], "@")
-			if (idx>>uint(i))&1 == 1 {
+			if pos[int32(i)] {
 				lits = append(lits, name)
 			} else {
 				lits = append(lits, "¬"+name)
 			}
 		}
-		t := strings.Join(lits, " ∧ ")
-		if !seen[t] {
-			seen[t] = true
-			terms = append(terms, t)
-		}
+		terms = append(terms, strings.Join(lits, " ∧ "))
 	}
 	sort.Strings(terms)
 	if len(terms) > 16 {
@@ -529,7 +598,7 @@ func (cs *CondSpace) EvalValue(v ssa.Value) (Bits, bool) {
 	}
 	chk(f)
 	if !ok {
-		return nil, false
+		return 0, false
 	}
 	return cs.evalFormula(f), true
 }
@@ -603,12 +672,8 @@ func newCondSpaceAvoid(fn *ssa.Function, rec AtomRecogniser, avoid map[*ssa.Basi
 	}
 	if len(cs.Vars) > maxCondVars {
 		cs.err = fmt.Sprintf("function %s tests %d distinct conditions (cap %d)", fname(fn), len(cs.Vars), maxCondVars)
+		bdd.errors = append(bdd.errors, cs.err)
 		return cs
-	}
-	n := len(cs.Vars)
-	cs.words = 1
-	if n > 6 {
-		cs.words = 1 << uint(n-6)
 	}
 	// universe: x == c1 and x == c2 with distinct constants are mutually exclusive
 	cs.Univ = cs.True()
